@@ -231,6 +231,17 @@ def check_conversion(case, rec):
         if conv_be[i] != conv[i]:
             rec.violation('scalar_eq_array:' + res, '(%d, %d) at %r: big-endian array %s, little-endian %s' % (
                 s, f, res, conv_be[i], conv[i]))
+    # the field accessors and scalar items of the arrays report the (seconds, fractions) they were built from
+    for name, ta in (('little-endian', TimestampArray(arr)), ('big-endian', TimestampArray(arr_be))):
+        try:
+            secs, fracs = [int(x) for x in ta.seconds], [int(x) for x in ta.second_fractions]
+            items = [(ta[i].seconds, ta[i].second_fractions, ta[i] == TdmsTimestamp(*pts[i])) for i in range(2)]
+        except Exception as e:      # noqa
+            rec.violation('fields:raised', describe_exc(e), key=exc_key(e))
+            break
+        if secs != [p_[0] for p_ in pts] or fracs != [p_[1] for p_ in pts] or items != [(p_[0], p_[1], True) for p_ in pts]:
+            rec.violation('fields', '%s TimestampArray built from %r reports seconds %r, second_fractions %r, items %r' % (
+                name, pts, secs, fracs, items))
     (a, b) = pts
     if a <= b and conv[0] > conv[1] or b <= a and conv[1] > conv[0]:
         rec.violation('monotone:' + res, '%r <=> %r but conversions %s, %s' % (a, b, conv[0], conv[1]))
